@@ -133,4 +133,65 @@ theorem accepts_seq_opt_set (cs : CSet) (b : Re) (s : List Char) :
     · simp [hc, List.head?_append]
     · simp [hc]
 
+/-- greedy unbounded repetition of a set followed by something that cannot start with a member of the set:
+    only the maximal run survives (no backtracking into the run can succeed) -/
+theorem repSet_flatMap_noStart (C : Char → Bool) (k : List Char → List (List Char))
+    (hk : ∀ c t, C c = true → k (c :: t) = []) : ∀ (s : List Char) (mn : Nat),
+    (repSet C mn none s).flatMap k =
+      if mn ≤ (s.takeWhile C).length then k (s.dropWhile C) else [] := by
+  intro s
+  induction s with
+  | nil => intro mn; cases mn <;> simp [repSet]
+  | cons c t ih =>
+    intro mn
+    by_cases hc : C c = true
+    · simp only [repSet, hc, List.takeWhile_cons, List.dropWhile_cons]
+      simp only [Option.map_none, ne_eq, reduceCtorEq, not_false_eq_true, and_self, ↓reduceIte,
+        List.length_cons, List.flatMap_append]
+      rw [ih (mn - 1)]
+      have h2 : (if mn = 0 then [c :: t] else []).flatMap k = [] := by
+        split <;> simp [hk c t hc]
+      rw [h2, List.append_nil]
+      by_cases h1 : mn - 1 ≤ (t.takeWhile C).length
+      · rw [if_pos h1, if_pos (by omega)]
+      · rw [if_neg h1, if_neg (by omega)]
+    · cases mn <;> simp [repSet, hc]
+
+theorem ends_seq_rep_set_noStart (cs : CSet) (b : Re) (mn : Nat) (s : List Char)
+    (hb : ∀ c t, cs.has c = true → b.ends (c :: t) = []) :
+    (Re.seq (.rep (.set cs) mn none true) b).ends s =
+      if mn ≤ (s.takeWhile cs.has).length then b.ends (s.dropWhile cs.has) else [] := by
+  show (Re.ends (.rep (.set cs) mn none true) s).flatMap (fun e => b.ends e) = _
+  rw [ends_rep_set]
+  exact repSet_flatMap_noStart cs.has (fun e => b.ends e) hb s mn
+
+theorem ends_seq_set (cs : CSet) (b : Re) (s : List Char) :
+    (Re.seq (.set cs) b).ends s =
+      match s with
+      | [] => []
+      | c :: t => if cs.has c = true then b.ends t else [] := by
+  cases s with
+  | nil => simp [Re.ends]
+  | cons c t => by_cases hc : cs.has c = true <;> simp [Re.ends, hc]
+
+theorem mem_takeWhile_sat (p : Char → Bool) : ∀ (l : List Char) (y : Char), y ∈ l.takeWhile p → p y = true := by
+  intro l
+  induction l with
+  | nil => intro y h; simp at h
+  | cons c t ih =>
+    intro y h
+    by_cases hc : p c = true
+    · simp [List.takeWhile_cons, hc] at h
+      rcases h with rfl | h
+      · exact hc
+      · exact ih y h
+    · simp [List.takeWhile_cons, hc] at h
+
+theorem ends_set (cs : CSet) (s : List Char) :
+    (Re.set cs).ends s =
+      match s with
+      | [] => []
+      | c :: t => if cs.has c = true then [t] else [] := by
+  cases s <;> simp [Re.ends]
+
 end PP.Regex
